@@ -661,7 +661,7 @@ pub fn enabled(c: &FuChecker, w: &World, pre: &FuObs, g: &FuGhost) -> Vec<FuOp> 
                             ops.push(FuOp::ClosePos { u, id: p.identifier.clone(), partial: Some((li, amt - 1)) });
                         }
                     }
-                    if matches!(a, FAlpha::Full | FAlpha::Positions) {
+                    if matches!(a, FAlpha::Full | FAlpha::Positions | FAlpha::Reward) {
                         // the pool manager tops up this position on behalf of its owner
                         ops.push(FuOp::ProvideLock { u, lp: li, amount: 5000, dur: p.unlocking_duration, lock_id: Some(p.identifier.clone()) });
                     }
@@ -674,6 +674,18 @@ pub fn enabled(c: &FuChecker, w: &World, pre: &FuObs, g: &FuGhost) -> Vec<FuOp> 
                     ops.push(FuOp::WithdrawPos { u, id: p.identifier.clone(), emergency: None });
                 }
                 if matches!(a, FAlpha::Full | FAlpha::Positions) {
+                    if let Some(bare) = p.identifier.strip_prefix("u-") {
+                        // the name the owner typed, without the prefix the farm manager stores it under: no position has it
+                        let bare = bare.to_string();
+                        let o = if u == A { B } else { A };
+                        ops.push(FuOp::ClosePos { u, id: bare.clone(), partial: None });
+                        ops.push(FuOp::WithdrawPos { u, id: bare.clone(), emergency: None });
+                        ops.push(FuOp::WithdrawPos { u, id: bare.clone(), emergency: Some(true) });
+                        ops.push(FuOp::ExpandPos { u, id: bare.clone(), lp: li, amount: 3 });
+                        ops.push(FuOp::ProvideLock { u, lp: li, amount: 5000, dur: p.unlocking_duration, lock_id: Some(bare.clone()) });
+                        ops.push(FuOp::ProvideLock { u: o, lp: li, amount: 5000, dur: p.unlocking_duration, lock_id: Some(bare.clone()) });
+                        ops.push(FuOp::ProvideLockSingle { u: o, lp: li, amount: 10_001, dur: p.unlocking_duration, lock_id: Some(bare) });
+                    }
                     // the other user tries to manage this position
                     let o = if u == A { B } else { A };
                     if p.open {
@@ -724,6 +736,11 @@ pub fn enabled(c: &FuChecker, w: &World, pre: &FuObs, g: &FuGhost) -> Vec<FuOp> 
         let n_farm_lps = if a == FAlpha::Farms { 1 } else { n_lps };
         for lp in 0..n_farm_lps {
             let on_lp = pre.farms.iter().filter(|f| f.lp_denom == pre.lps[lp]).count();
+            let max_farms = pre.cfg.as_ref().map(|x| x.max_concurrent_farms as usize).unwrap_or(usize::MAX);
+            if on_lp >= 3 && on_lp + 1 >= max_farms {
+                // at (or one below) the configured limit of concurrent farms: one more creation is still attempted
+                ops.push(farm_op(fee, C, lp, Some(cur + 1), Some(cur + 3), (rd, 2000), None));
+            }
             if on_lp < 3 {
                 ops.push(farm_op(fee, C, lp, Some(cur + 1), Some(cur + 3), (rd, 2000), None));
                 if matches!(a, FAlpha::Full | FAlpha::Farms) {
